@@ -9,6 +9,9 @@
     member of the MetapypeRuleError family; collecting mode raises nothing; every entry is
     (ValidationError member, str, offending Node of the tree, details...); errs == [] iff
     fail-fast succeeded; the same for validate.node on nodes of those trees;
+(H) statelessness (an assumption of the theorems): the same tree object validated repeatedly (collect, collect
+    again, fail-fast, into a non-empty list, after in-place edits and their undo) must behave like a freshly
+    built identical tree - in particular "errs == [] iff fail-fast succeeds" must hold on every call, not only the first;
 (B) model-vs-implementation correspondence on whole trees (<= 40 nodes) inside Coq."""
 import copy
 
@@ -146,6 +149,13 @@ def run(ctx):
                           "node_attributes": list(n.attributes.items()), "node_children": [c.name for c in n.children],
                           "observed_ff": ffn, "observed_codes": codesn})
         Node.store.clear()
+        # history: repeated validation of the same objects (second collecting call, non-empty list, in-place edits)
+        if origin != "eml.xml" or rng.random() < 0.3:
+            call = rng.choice(["tree", "tree", "node"])
+            for step, what, details in VT.history_problems(rng, t, call=call, pool=pool, n_edits=1 if VT.size(t) > 40 else 2):
+                ctx.fail("C04:history:" + call + ":" + step.split("/")[-1], what, dict(details, edits=ops))
+            ctx.case()
+            ctx.count("history_sequences")
         ctx.sample({"origin": origin, "size": VT.size(t), "depth": d, "edits": ops, "ff": ff, "codes": codes[:6]}, limit=8)
         if VT.size(t) <= 40 and len(coq_cases) < n_coq and (origin != "subtree" or ops):
             coq_cases.append(RL.coq_tcase(t))
@@ -206,6 +216,19 @@ def replay(ctx, data):
     if r.get("kind") != "impl-vs-statement":
         print(json.dumps(data, indent=1)[:4000])
         return run(ctx)
+    if "history" in r:
+        import random
+        call = r.get("call", "validate.tree").split(".")[-1]
+        found = []
+        for k in range(20):
+            found = VT.history_problems(random.Random(k), r["tree"], call=call)
+            if found:
+                break
+        print(f"history replay of validate.{call}: {'still differs: ' + found[0][1] if found else 'same objects and fresh tree agree'}")
+        ctx.case()
+        for step, what, details in found[:1]:
+            ctx.fail(data.get("key", "C04:history"), what, details)
+        return
     if "tree" in r and r.get("call") == "validate.tree":
         root = RL.build_tree(r["tree"])
         ids = {id(n) for n in all_nodes(root)}
